@@ -511,6 +511,106 @@ T = {
     needs="two owners with pending perpetual orders, the earlier one removed, then a new order while the later one is still pending",
     caught_by="C20.cancel_returns_all in hist mode; the order-id correspondence (every pending id below the counter)",
     history="caught at first run"),
+ "C01-6": dict(
+    change="x/amm/keeper/update_pool_for_swap.go UpdatePoolForSwap: the book is reduced by the pool's share of the weight-breaking fee, the bank by the treasury's share",
+    needs="an oracle pool, a swap that worsens its weights, and governance having moved amm WeightBreakingFeePortion off 0.5 (at 0.5 the two shares are the same number)",
+    caught_by="C01.reserve_eq_held in amm-focused histories with targeted amm-parameter governance (VERIF_GOVAMM)",
+    history="MISSED at first (no history ever changed the amm module's parameters); govAmmShock added (WeightBreakingFeePortion / WeightRecoveryFeePortion / multiplier moved early in the history and now and then); caught since"),
+ "C02-6": dict(
+    change="x/amm/keeper/keeper_join_pool_no_swap.go JoinPoolNoSwap: the shares minted by an all-asset join are capped at the requested amount after pool.JoinPool has added the uncapped amount to TotalShares",
+    needs="an all-asset join of a non-oracle pool whose requested share amount is off the token grid, so that the per-asset round-up computes more shares than asked",
+    caught_by="C02.shares_agree in hist mode",
+    history="caught at first run"),
+ "C03-6": dict(
+    change="x/amm/keeper/keeper_swap_exact_amount_out.go InternalSwapExactAmountOut: the price is computed on the block's pool snapshot instead of the live pool",
+    needs="a constant-product pool and, in ONE block, an operation that sets the snapshot, a change of the reserves, and then an exact-out swap",
+    caught_by="C03.constant_product_not_decreasing (driver C03H) in amm-focused histories with swap bursts",
+    history="MISSED at first (the differential mode drives x/amm/types, the keeper's choice of pool was out of reach; two swaps on one pool in one block were rare); clause added (equal-weight pools: the product of the reserves does not fall in a block without joins/exits, one base unit per transfer allowed) together with the ops amm.swapBurst and the sticky pool of multi-transaction blocks; caught since"),
+ "C04-6": dict(
+    change="x/amm/keeper/route_exact_amount_in.go RouteExactAmountIn: a hop that stays in the denom it is handed is skipped",
+    needs="an exact-in request whose LAST route entry repeats the previous out denom: no executed hop is the last one, so nothing pays the recipient and the stated minimum is never applied",
+    caught_by="C04.exact_in_min_out in mode c04 (degenerate routes)",
+    history="MISSED at first (routes never named a hop twice); degenerate routes added to the request generator (last hop twice for exact-in, first hop twice for exact-out); caught since"),
+ "C05-6": dict(
+    change="x/amm/keeper/keeper_join_pool_no_swap.go JoinPoolNoSwap: mints the share amount the message asked for instead of the amount pool.JoinPool computed",
+    needs="a single-asset join of a non-oracle pool with a stated share amount larger than the deposit buys (the single-asset path never sizes the deposit from it)",
+    caught_by="C05.join_no_more_than_deposit_ratio (driver C05H) in histories whose single-sided joins state a share amount",
+    history="MISSED at first (single-sided joins always stated 0 shares; C05H judged exits only); clause added (non-oracle pools: minted/total <= deposit/reserve for some deposited asset) and stated share amounts on single-sided joins; caught since"),
+ "C06-6": dict(
+    change="x/stablestake/types/params.go + keeper/msg_server_update_params.go: the stored TotalValue is copied into the proposal's params through a value-receiver helper (the copy is discarded)",
+    needs="a governance MsgUpdateParams of stablestake whose TotalValue field differs from the stored one when it executes (any proposal drafted before the vault's latest deposit, withdrawal or interest accrual)",
+    caught_by="C06.vault_equation in ss-focused histories with vault governance from a stale draft (VERIF_GOVSS)",
+    history="MISSED at first (the vault governance of history mode read the parameters in the very moment it re-sent them); the draft is now the parameters as they were at the previous proposal; run added to C06; caught since"),
+ "C07-6": dict(
+    change="x/stablestake/keeper/debt.go Borrow: the cap is max(0.9, Params.MaxLeverageRatio) through a new helper",
+    needs="governance sets stablestake MaxLeverageRatio above 0.9 (validation accepts any non-negative value); then a borrow between 90 % and the new ratio",
+    caught_by="C07.cap in mode c07 (governance drafts that move MaxLeverageRatio)",
+    history="MISSED at first (the stale-draft governance of mode c07 never changed a parameter); half of the drafts now set MaxLeverageRatio to one of 0, 0.5, 0.9, 0.95, 1, 3; caught since"),
+ "C08-6": dict(
+    change="x/leveragelp/keeper/position.go GetPositions: the decode variable is shared by all entries of a page (every pointer describes the last record)",
+    needs="two or more open positions in one sweep page, the last one (by owner address) liquidatable: it is closed on the first visit and written back on the second",
+    caught_by="C08.counter, C08.pool_eq_sum, C08.position_eq_committed in hist mode",
+    history="caught at first run"),
+ "C09-6": dict(
+    change="x/amm/keeper/abci.go ExecuteSwapRequests: a request with no opposite request is applied without a cache context; a failure after effects is only logged",
+    needs="long custody and short liabilities in one asset; two exact-out requests in one block, each affordable by price, the second refused by the perpetual hook (pool would hold less than the custody) after it has been applied",
+    caught_by="C09.custody_backed in scenario c09-swaps-of-one-block-against-custody; C04.exact_in_min_out (a two-hop request whose second hop fails keeps its first hop) caught it at first contact",
+    history="MISSED by C09 at first (caught by C04 at once); random exact-out pairs near the custody (op perp.swapOutPair) did not reach it in a quick run — positions are small against the pools —, the directed scenario does; caught since"),
+ "C10-6": dict(
+    change="x/perpetual/keeper/process_mtp.go CheckAndCloseAtTakeProfit: a nil or zero take-profit price is replaced by the 'infinite' default before the comparison",
+    needs="a SHORT with take-profit price 0 (no take profit): price <= 10^40 always holds, so anyone can close it through the take_profit list",
+    caught_by="C10.third_party_close in mode c10 (shorts opened without a take profit)",
+    history="MISSED at first (every short was opened with a take profit); a quarter of the shorts now have none; caught since"),
+ "C11-6": dict(
+    change="x/perpetual/keeper/close_position.go ClosePosition: a position whose custody has been used up is settled in full and the handler returns before the AfterPerpetualPositionClosed hook",
+    needs="a position whose custody was consumed by interest (years untouched), closed by its owner with MsgClose",
+    caught_by="C11.nonamm_eq, C11.total_eq in hist mode (long gaps)",
+    history="caught at first run"),
+ "C12-6": dict(
+    change="x/commitment/genesis.go ExportGenesis: lock-ups whose unlock time is not after the context's block time are dropped from the export",
+    needs="the node's real export path: app/export.go builds the context from the height alone, so the block time is the zero time and every running lock-up counts as expired",
+    caught_by="C12.lock_kept in cm-focused histories with genesis round trips",
+    history="MISSED at first (the round trip exported on a context with the block's time); genesisRoundTrip now exports on a height-only header like app/export.go; caught since"),
+ "C13-6": dict(
+    change="x/masterchef/keeper/msg_server.go ClaimRewards: RewardPending is cleared only after the transfer, in a second loop",
+    needs="one MsgClaimRewards that names the same pool twice: the credit is paid once per mention",
+    caught_by="C13.block_credit, C13.solvent in hist mode (claims that name a pool twice)",
+    history="MISSED at first (claims named each pool at most once); a quarter of the claims now repeat one of their ids (masterchef and leveragelp); caught since"),
+ "C14-6": dict(
+    change="x/commitment/keeper/msg_server_vest_now.go VestNow: an 'empty' commitments record (no claimed, no committed — vesting entries forgotten) is removed",
+    needs="vest-now enabled, a running vesting entry, nothing committed, and a vest-now of exactly the rest of the claimed bucket",
+    caught_by="C14.complete, C14.conservation in mode c14",
+    history="caught at first run"),
+ "C15-6": dict(
+    change="x/commitment/keeper/msg_server_vest_now.go VestNow: the mint is gated on the request's base denom being Eden instead of the vesting denom being ELYS",
+    needs="governance enables vest-now and points Eden's vesting at a denom other than uelys; then a vest-now of claimed Eden mints that denom",
+    caught_by="C15.mint_burn_sites (the regenerated site table now carries the guards of each call) and C15.external_conserved in cm-focused histories with vest governance",
+    history="MISSED at first (the site table recorded the call, not what gates it; no history used vest-now); guards added to the table, op cm.vestNow and govVestShock (VERIF_GOVVEST) added; caught since, with a failing block"),
+ "C16-6": dict(
+    change="x/oracle/keeper/msg_server_price.go FeedPrice: a report equal to the latest stored price of that asset and source is not stored",
+    needs="the same value reported twice in different blocks; the first entry expires while the second report is still live",
+    caught_by="C16.newest in mode c16",
+    history="caught at first run"),
+ "C17-6": dict(
+    change="x/tradeshield/keeper/msg_server_perpetual_order.go CancelPerpetualOrders: the batch checks that the sender owns ONE of the named orders",
+    needs="one batch that names an order of the sender's own and somebody else's",
+    caught_by="C17.owner_only in mode c17 (mixed batches)",
+    history="MISSED at first (a non-owner's batch named the owner's object only); for messages that name several objects the second account now also creates an object of its own and sends [own, other's] and [other's, own]; caught since"),
+ "C18-6": dict(
+    change="x/masterchef/keeper/abci.go CollectGasFees: the consumer's part of the protocol share is a second rounded portion instead of the remainder",
+    needs="governance sets ProviderStakingRewardsPortion to a value where halves appear (0.3, 0.5) and a block's fee total hits the rounding boundary (1 total in 400 / in 80): the last transfer asks for one unit more than is left",
+    caught_by="C18Src.gas_fees_sent_le_collected no longer checks (the collector is regenerated from the source with its transfers); the search then found a failing block (C18.block_ok)",
+    history="MISSED at first; CollectGasFees and CollectPerpRevenue are now translated from the source on every run with the trace of their bank transfers, and 'sent <= collected' is proved for all amounts and portions; caught since"),
+ "C19-6": dict(
+    change="x/commitment/types/commitments.go DeductFromCommitted: the running lock-ups are rebuilt by ranging over a map keyed by unlock time",
+    needs="an account with two or more running lock-ups of one denom with different unlock times, and a deduction on that denom",
+    caught_by="C19.ranges_as_expected (regenerated table of map ranges) — reported with no-failing-input-found",
+    history="caught at first run as a broken proof obligation; the quick replicas did not diverge"),
+ "C20-6": dict(
+    change="x/tradeshield/types/order.go GetSpotOrderAddress / GetPerpOrderAddress: one helper derives the escrow account from the order id alone",
+    needs="a spot order and a perpetual order with the same numeric id pending at the same time; one of them cancelled or executed",
+    caught_by="C20.escrow_holds in hist mode",
+    history="caught at first run"),
 }
 
 root = os.path.join(os.path.dirname(os.path.dirname(os.path.abspath(__file__))), "seeded")
